@@ -140,6 +140,36 @@ def skip_idiom_probes(rep, pest) -> None:
     rep.extra["skip_idiom_probes"] = n
 
 
+def insensitive_mixed_probes(rep, pest) -> None:
+    """Insensitive literals that mix ASCII letters with other characters, alone and as alternatives of choices the optimizer fuses:
+    every ASCII case variant of the spelled literal matches, nothing else of the same length does, in all four modes."""
+    import itertools  # noqa: PLC0415
+
+    lits = ["utf-8", "a-b", "x1y", "q", "a.b", "k_9", "-a", "1"]
+    shapes = ['^"{0}"', '^"{0}" | ^"utf-16"', '"zz" | ^"{0}"', '(^"{0}" | "#")+', '^"{0}" | \'0\'..\'0\'']
+    n = 0
+    for lit in lits:
+        variants = {"".join(v) for v in itertools.product(*[(c.lower(), c.upper()) if c.isalpha() else (c,) for c in lit])}
+        others = {lit.replace(c, d) for c in lit for d in ("\u212a", "\u017f", "!", "b" if c != "b" else "c")} - variants
+        for shape in shapes:
+            g = "r = { " + shape.format(lit) + " }\n"
+            for mode in M.MODES:
+                try:
+                    p, _ = M.build(pest, g, mode)
+                except Exception as e:  # noqa: BLE001
+                    rep.violation({"kind": "insensitive-mixed", "grammar": g, "mode": mode}, f"{g!r} failed to build in mode {mode}: {type(e).__name__}: {e}")
+                    continue
+                for text, want in [(v, len(v)) for v in sorted(variants)] + [(o, None) for o in sorted(others)]:
+                    n += 1
+                    o = M.run_parse(pest, p, "r", text)
+                    got = o["pairs"][0][2] if o.get("ok") and o["pairs"] else None
+                    if (want is not None and (got is None or got < want)) or (want is None and got == len(text) and "+" not in shape):
+                        rep.violation({"kind": "insensitive-mixed", "grammar": g, "mode": mode, "input": text, "expected": want, "observed": str(o)[:200]},
+                                      f"{g.strip()!r} [{mode}] on {text!r}: matched up to {got}, expected {'a full match' if want is not None else 'no full match'}")
+    rep.evaluations += n
+    rep.extra["insensitive_mixed_probes"] = n
+
+
 def run(tier: str) -> int:  # noqa: PLR0912, PLR0915
     rep = C.Report("C12", tier)
     rep.distinct = None
@@ -154,6 +184,7 @@ def run(tier: str) -> int:  # noqa: PLR0912, PLR0915
     rep.add_tlc(st, "CharSets: MergeSound, UnionSound, ClassRelations")
 
     skip_idiom_probes(rep, pest)
+    insensitive_mixed_probes(rep, pest)
 
     # 2. denotations of the probe family (TLC) -> sweep
     probes = []
